@@ -92,7 +92,7 @@ func msgRule(g *vh.Gen, key string, rs *ruleSet) {
 		stmts := []string{"local m = inbound_message.new()"}
 		mb, from, to, subj := "[]", vh.HS(""), "[]", vh.HS("")
 		if g.Chance(0.7) {
-			boxes := []string{g.Pick("fresh", "box2"), "second"}[:1+g.Intn(2)]
+			boxes := []string{g.Pick("fresh", "box2", "Fresh", "fresh+tag", "fresh@corp.example", "night shift"), g.Pick("second", "fresh+other", "SECOND")}[:1+g.Intn(2)]
 			qs := make([]string, len(boxes))
 			for i, b := range boxes {
 				qs[i] = q(b)
@@ -116,7 +116,10 @@ func msgRule(g *vh.Gen, key string, rs *ruleSet) {
 	var stmts []string
 	mb, from, to, subj := "~", "~", "~", "~"
 	if g.Chance(0.5) {
-		boxes := []string{g.Pick("redirected", "box2", "alice"), "second"}[:1+g.Intn(2)]
+		// also names no address policy would produce: a hook's mailbox list is taken as it is (upper case, a +tag, an
+		// @domain, a blank; two names that differ only in what a canonicaliser would cut)
+		boxes := []string{g.Pick("redirected", "box2", "alice", "Audit", "ops+a", "archive@corp.example", "night shift", "a..b"),
+			g.Pick("second", "second", "ops+b", "AUDIT", "ops")}[:1+g.Intn(2)]
 		if g.Chance(0.15) {
 			boxes = nil
 		}
